@@ -63,7 +63,8 @@ def gen_function_src(r, allow_shadow=True):
         else:
             t = r.choice(STMTS)
         body.append(t.format(p0=ps[0] if ps else "name", p1=ps[-1] if ps else "count"))
-    ret = r.choice([None, "return total", "return %s" % (ps[0] if ps else "name"), "return (%s, 1)" % (ps[-1] if ps else "count"), "return", "return helper(flag=True)"])
+    ret = r.choice([None, "return total", "return %s" % (ps[0] if ps else "name"), "return (%s, 1)" % (ps[-1] if ps else "count"), "return", "return helper(flag=True)",
+                    "return 0", "return False", "return 0.0", "return 5", "return ''", "return 'done'", "return None", "return True", "return -1"])
     if ret:
         body.append(ret)
     if not body:
